@@ -18,7 +18,7 @@ theorem requestTerminate_be (s : EState) (k r : String) : (requestTerminate s k 
   split
   · rfl
   · split
-    · rw [refuse_be, termPrep_be]
+    · rw [refuse_be]
     · rename_i s' hs
       rw [termAfter_be, setState_be hs, termPrep_be]
 
